@@ -152,7 +152,14 @@ def encode_contrasts(  # pylint: disable=dangerous-default-value  # always repla
         )
 
     if levels is not None:
-        extra_categories = set(pandas.unique(data)).difference(levels)
+        original = pandas.Series(data).reset_index(drop=True)
+        data = pandas.Series(pandas.Categorical(data, categories=levels))
+        # Report exactly the (non-null) values that did not match any of the
+        # nominated levels, as judged by the matching that pins them above
+        # (e.g. `True` is equal to, but does not match, the level `1`).
+        extra_categories = set(
+            pandas.unique(original[(data.isna() & original.notna()).to_numpy()])
+        )
         if extra_categories:
             warnings.warn(
                 "Data has categories outside of the nominated levels (or that were "
@@ -160,7 +167,6 @@ def encode_contrasts(  # pylint: disable=dangerous-default-value  # always repla
                 " cast to nan, which will likely skew the results of your analyses.",
                 DataMismatchWarning,
             )
-        data = pandas.Series(pandas.Categorical(data, categories=levels))
     else:
         data = pandas.Series(data).astype("category")
 
